@@ -70,6 +70,14 @@ def templates(pyver, tier, rng=None):
     add("near-twin-lambdas-in-def", "def f(x):\n    a, b, c = (lambda: [i for i in x]), (lambda: [i + 1 for i in x]), (lambda: [i for i in x])\n    return a, b, c\n")
     add("near-twin-deeper", "p, q = (lambda: (lambda: (lambda: 1))), (lambda: (lambda: (lambda: 2)))\n")
     add("near-twin-classes", "class A: f = lambda s: [1 for _ in s]\nclass A: f = lambda s: [2 for _ in s]\n")
+    # two different parents on one line, each owning a nested code object that compiles to the same thing
+    add("same-line-parents-equal-children", "f = lambda: [i for i in (1, 2)]; g = lambda x: [i for i in (1, 2)]\n")
+    add("same-line-defs-equal-children", "def a(): return (lambda: 1)\ndef b(): return (lambda: 1)\n".replace("\ndef b", "; b = lambda: (lambda: 1)\ndef c"))
+    add("same-line-classes-equal-methods", "class A: m = lambda s: (lambda: s)\nclass B: m = lambda s: (lambda: s)\nx = [lambda: (lambda: 0), lambda q: (lambda: 0)]\n")
+    # more than 255 parameters (the limit of 255 arguments was lifted in 3.7)
+    for npos, nkw in ((255, 0), (256, 0), (200, 56), (300, 10), (0, 256)):
+        sig = ", ".join(["p%d" % i for i in range(npos)] + (["*"] if nkw else []) + ["k%d=%d" % (i, i) for i in range(nkw)])
+        add("params-%d-%d" % (npos, nkw), "def f(%s):\n    'doc'\n    return %s\n" % (sig, "p0" if npos else "k0"))
     # constants nested as deep as each interpreter's parser allows (3.7: ~92, 3.8: ~98, 3.9+: 200 levels)
     for d in (30, 60, 90, 97, 150, 195):
         add("const-nested-tuple-%d" % d, "x = " + "(" * d + "1" + ",)" * d + "\ny = " + "(" * d + "1.0" + ",)" * d + "\n")
